@@ -218,7 +218,7 @@ def unq(s):
 class Prop:
     id = "C20"
     lean_module = "MuduoVerif.Props.C20"
-    gen_engines = ["Calendar", "Zone"]
+    gen_engines = ["Calendar", "Zone", "SysSkel"]
     drivers = ["calendar"]
     technique = ("Lean 4 theorems over the calendar functions translated from /repo's AST (400-year periodicity + one full cycle by "
                  "kernel evaluation) and over the zone look-ups built from extracted guards (binary-search correctness + case analysis "
@@ -252,6 +252,8 @@ class Prop:
         "order of the tests in findLocalTime and the record each branch returns - tied by the differential run over all zone files",
         "hand-written Model/Inet.lean (glibc inet_ntop/inet_pton for AF_INET, snprintf %u, bswap) and the printf forms of "
         "Model/Calendar.lean - tied by the differential run",
+        "vlib/gen/sysskel.py (clang-14 JSON AST -> Generated/SysSkel.lean: statement skeletons of every function of SocketsOps.cc, Socket.cc/.h, InetAddress.cc/.h, Endian.h, Poller.cc, poller/DefaultPoller.cc, the poller constructors/destructors, Channel::tie, createEventfd, createTimerfd; what it leaves out is listed in the generated header) and the reading Model/SysSkelDecl.lean of what the "
+        "models assume of each primitive (one system call, arguments passed through, result returned unchanged, failures only logged - or exactly the declared extra work); C20 depends on inet_text_conversions_tied (InetAddress::toIpPort/toIp/port, the constructors, sockets::toIpPort/toIp/fromIpPort, the six Endian.h helpers): the code delegates to inet_ntop/inet_pton/snprintf/__bswap_* as Model/Inet.lean assumes; WHAT those compute stays the hand-written model, tied by the differential run; still trusted: the kernel's / glibc's behaviour behind each system call",
         "compiled evaluation of the decidable predicate WF by the Lean driver on each zone file (cross-checked by the Python parser)",
         "glibc (gmtime_r, timegm, localtime_r under TZ=:<file>, strftime, inet_ntop, inet_pton, htobe*) and Python (datetime, socket, "
         "ipaddress) in the role of TEST ORACLES only",
